@@ -6,7 +6,7 @@ CONSTANTS
   MaxUrl = 2
   ReuseOnLookup = FALSE
   FabricatedNorm = TRUE
-  EmptyParam = TRUE
+  EmptyParam = FALSE
   WildHostCheck = TRUE
   KF_Shadow = TRUE
   Source = "all"
